@@ -41,7 +41,9 @@ import (
 
 // the chains whose keeper is driven: an EVM chain, a second EVM chain (another module name, same address class) and tron
 // (base58 addresses)
-var keeperChains = []string{"eth", "bsc", "tron"}
+// (base58 addresses) with the larger scenario sets, then the other five EVM-class keepers (same code, their own module name,
+// store and oracle set) with the fixed scenarios and a small generated set
+var keeperChains = []string{"eth", "bsc", "tron", "polygon", "avalanche", "arbitrum", "optimism", "layer2"}
 
 func keeperOf(s *hx.Suite, chain string) crosschainkeeper.Keeper {
 	switch chain {
@@ -51,6 +53,14 @@ func keeperOf(s *hx.Suite, chain string) crosschainkeeper.Keeper {
 		return s.App.TronKeeper
 	case "polygon":
 		return s.App.PolygonKeeper
+	case "avalanche":
+		return s.App.AvalancheKeeper
+	case "arbitrum":
+		return s.App.ArbitrumKeeper
+	case "optimism":
+		return s.App.OptimismKeeper
+	case "layer2":
+		return s.App.Layer2Keeper
 	}
 	return s.App.EthKeeper
 }
@@ -604,7 +614,12 @@ func (e *keeperEnv) replay(k *kind, what string, claims []claim, order []int, sh
 		m := k.clone(pf.claim)
 		setBridger(m, e.bridgers[pf.voters[0]].String())
 		anyM, _ := codectypes.NewAnyWithValue(m)
-		att := &ct.Attestation{Observed: false, Height: uint64(ctx.BlockHeight()), Claim: anyM}
+		// … in an earlier block (Attestation.Height is the fxcore height at which the first vote arrived)
+		opened := ctx.BlockHeight() - 1 - int64(e.r.rng.Intn(3))
+		if opened < 1 {
+			opened = 1
+		}
+		att := &ct.Attestation{Observed: false, Height: uint64(opened), Claim: anyM}
 		var vs []string
 		for _, i := range pf.voters {
 			att.Votes = append(att.Votes, e.oracles[i].String())
@@ -830,6 +845,9 @@ func keeperRun(t *testing.T, r *run, g *gen, ks map[string]*kind) {
 	for i, chain := range keeperChains {
 		keeperRunOn(t, r, g, ks, chain, i == 0, i)
 	}
+	if len(keeperChains) != 8 {
+		r.out.Violate("harness: not every crosschain keeper is driven")
+	}
 }
 
 func keeperRunOn(t *testing.T, r *run, g *gen, ks map[string]*kind, keeperChain string, full bool, idx int) {
@@ -842,9 +860,12 @@ func keeperRunOn(t *testing.T, r *run, g *gen, ks map[string]*kind, keeperChain 
 	r.out.Stats.Extra["keeper_power_profile:"+keeperChain] = fmt.Sprint(profile)
 	r.out.Count("keeper:chain:" + keeperChain)
 	kg := &gen{rng: g.rng, pool: e.exts}
-	e.keyLines(g)
+	light := idx >= 3 // the five further EVM-class keepers
+	if !light {
+		e.keyLines(g)
+		e.viewDepLines(kg, ks)
+	}
 	e.bridgeTokenLines(kg, ks["bt"])
-	e.viewDepLines(kg, ks)
 
 	// disagree: M from everyone except the deviators, who vote D
 	disagree := func(k *kind, what string, m, d claim, deviators []int, order []int) {
@@ -913,8 +934,16 @@ func keeperRunOn(t *testing.T, r *run, g *gen, ks map[string]*kind, keeperChain 
 	}
 	allPositions := func(k *kind, what string, m, d claim) {
 		shifted(k, what, m, d)
-		shifted(k, what, d, m)
 		inflightSc(k, what, m, d)
+		if light {
+			// one deviator at a random position, and the deviating claim as the majority's
+			order := orders(g, n)
+			disagree(k, what, m, d, []int{order[g.rng.Intn(n)]}, order)
+			order = orders(g, n)
+			disagree(k, what, d, m, []int{order[n-2]}, order)
+			return
+		}
+		shifted(k, what, d, m)
 		inflightSc(k, what, d, m)
 		// the single deviator at every position of the vote order, both ways round; then two deviators
 		for pos := 0; pos < n; pos++ {
@@ -993,6 +1022,9 @@ func keeperRunOn(t *testing.T, r *run, g *gen, ks map[string]*kind, keeperChain 
 	nGen := hx.N(24, 200)
 	if !full {
 		nGen = hx.N(6, 60)
+	}
+	if light {
+		nGen = hx.N(3, 30)
 	}
 	for _, tag := range []string{"stf", "bc", "bcr", "ste", "bt", "osu"} {
 		k := ks[tag]
